@@ -454,7 +454,7 @@ def value_for(draw, d):
     elif sc in ("array", "nested_is_leaf"):
         new = {"k": "leaf", "cls": "struct_" + sc, "struct": sc, "dtype": "float32", "shape": [2],
                "flat": [0.0, 1.0], "as": "jnp", "adj": False}
-    else:  # leaf_is_nested: a dataclass value where an array is expected
+    else:  # leaf_is_nested: a dict of arrays where an array is expected
         lp = lps[draw(st.integers(0, len(lps) - 1))]
         inner = draw(_leaf_value(_get(d, lp), "rand"))
         return _vset(v, lp, {"k": "nested", "struct": "leaf_is_nested", "c": {"a": inner}})
@@ -750,7 +750,9 @@ def build_value(v, d=None, real=None):
         cls = real._constructor if d["ctor"] == "real" else ctor(d["ctor"], sorted(d["c"]))
         return cls(**kids)
     if v["struct"] == "leaf_is_nested":
-        return ctor("dc", fields)(**kids)
+        # a dict can never be converted to an array (a chex dataclass is a Mapping with __len__ and
+        # *can* come out of jnp.asarray as an array of its keys' length - seen with one field, shape (1,))
+        return dict(kids)
     kind = d["ctor"] if d is not None and d.get("ctor") in ("nt", "dc") else "nt"
     return ctor(kind, sorted(fields))(**kids)
 
@@ -785,6 +787,21 @@ def member(d, v):
             if not ok:
                 return False, f"{f}/{why}"
         return True, ""
+    if v["k"] == "nested" and v.get("struct") == "leaf_is_nested":
+        # a container where an array is expected: the statement decides on "once converted to a JAX
+        # array", and JAX does convert some containers (a dict of bool arrays becomes the scalar
+        # True); so ask JAX (not jumanji) whether and to what this object converts
+        import jax.numpy as jnp
+
+        try:
+            a = np.asarray(jnp.asarray(build_value(v)))
+        except Exception:  # noqa: BLE001
+            return False, "structure"
+        dt = str(a.dtype)
+        if dt not in DTYPES:
+            return False, "dtype"
+        return member(d, {"k": "leaf", "dtype": dt, "shape": list(a.shape), "as": "np",
+                          "flat": [_pyval(t, dt) for t in a.ravel().tolist()]})
     if v["k"] != "leaf" or "struct" in v:
         return False, "structure"
     if eff_shape(v) != leaf_shape(d):
